@@ -19,8 +19,10 @@ from pyvc import bigop, ops, trace as T
 from pyvc import fsmodel as F
 from pyvc.fsmodel import PATH
 from pyvc.speclib import P
+from pyvc.exprs import fmt_term
 
-NEW, ADDPATH, DEFINE, FIND, INSERT, ASSOC = range(6)
+NEW, ADDPATH, DEFINE, FIND, INSERT, ASSOC, WARN = range(7)
+LANG = Atom("Language")
 DEFSTR = Atom("DefStr")
 IDENT = Atom("Ident")
 macro_of = z3.Function("macro_from_definition_string", DEFSTR.sort(), T.MAC.sort())
@@ -46,6 +48,9 @@ def _h_find_include_file(ex, st, recv, pos, kw, node):
     if len(pos) not in (2, 3):
         return [(st, Exc("TypeError", node.lineno))]
     res = OPATH.fresh(ex.ctx, "found")
+    wc = st.ghost.get("wit_cell")
+    if wc is not None:            # ghost: the position of the k-th lookup in the trace (witness for "every -include is looked up")
+        st.heap[wc.oid].val = st.heap[wc.oid].val.append(VInt(T.value(st).n))
     angle = ops.truth(st, pos[2]) if len(pos) == 3 else ops.truth(st, kw["is_system_include"]) if "is_system_include" in kw else z3.BoolVal(False)
     T.emit(st, T.mk(FIND, obj=recv.t, path=ops.deref(st, pos[0]).t, path2=ops.deref(st, pos[1]).t, res=res.t, flag=angle))
     return [(st, res)]
@@ -54,8 +59,41 @@ def _h_find_include_file(ex, st, recv, pos, kw, node):
 def _h_insert_file(ex, st, recv, pos, kw, node):
     if len(pos) not in (1, 2):
         return [(st, Exc("TypeError", node.lineno))]
-    T.emit(st, T.mk(INSERT, path=ops.coerce(st, ops.deref(st, pos[0]), PATH).t))
+    lang = ops.deref(st, pos[1]) if len(pos) == 2 else None
+    # flag: the file is parsed in the language handed over (None = by its own extension); which language that is,
+    # is stated by the obligation on the INSERT events
+    st.ghost.setdefault("insert_langs", []).append(lang)
+    T.emit(st, T.mk(INSERT, path=ops.coerce(st, ops.deref(st, pos[0]), PATH).t,
+                    flag=z3.BoolVal(lang is not None), macro=None))
+    st.ghost["last_insert_lang"] = lang
     return [(st, VNone())]
+
+
+def _h_get_realpath(ex, st, recv, pos, kw, node):
+    if len(pos) != 1 or kw:
+        return [(st, Exc("TypeError", node.lineno))]
+    return [(st, VAtom(PATH, F.realpath(ops.coerce(st, ops.deref(st, pos[0]), PATH).t)))]
+
+
+def _h_warning(ex, st, pos, kw, node, star):
+    """log.warning(msg): a WARN event.  That the message names the include of the lookup just before it (and uses the
+    'user include' wording the summary counts by) is a separate obligation, raised here, so that no string term enters
+    the quantified trace facts."""
+    msg = ops.deref(st, pos[0])
+    tr = T.value(st)
+    last = tr.arr[tr.n - 1]
+    ex.ctx.oblige(f"{ex.ctx.unit}/ensures:the-warning-names-the-include-that-was-not-found (and says 'user include')", st,
+                  z3.And(T.field(last, "kind") == FIND,
+                         z3.Contains(msg.t, fmt_term(T.field(last, "path"))), z3.Contains(msg.t, z3.StringVal("user include"))),
+                  "ensures", node.lineno, None)
+    # flag: the event just before this warning is a lookup that found nothing (evaluated on the trace as it is now)
+    T.emit(st, T.mk(WARN, path=T.field(last, "path"),
+                    flag=z3.And(T.field(last, "kind") == FIND, OPATH.sort().is_none(T.field(last, "res")))))
+    return [(st, VNone())]
+
+
+LANGTAB = Abstract("LangTable", attrs={"item:*": (LANG, PATH)})       # state.langs: total on the files parsed so far
+lang_of = z3.Function("LangTable.item", LANGTAB.sort(), PATH.sort(), LANG.sort())
 
 
 def _h_associate(ex, st, recv, pos, kw, node):
@@ -67,7 +105,8 @@ def _h_associate(ex, st, recv, pos, kw, node):
 
 PLATOBJ = Abstract("Obj", methods={"add_include_path": _h_add_include_path, "define": _h_define,
                                    "find_include_file": _h_find_include_file})
-STATEOBJ = Abstract("StateObj", methods={"insert_file": _h_insert_file, "associate": _h_associate})
+STATEOBJ = Abstract("StateObj", attrs={"langs": LANGTAB},
+                    methods={"insert_file": _h_insert_file, "associate": _h_associate, "_get_realpath": _h_get_realpath})
 MACROOBJ = Abstract("MacroVal", attrs={"name": IDENT})
 name_of = MACROOBJ.attr_fn("name")
 ENTRY = Abstract("Entry", attrs={"item:file": PATH, "item:include_paths": SeqOf(PATH),
@@ -91,13 +130,20 @@ def _macro_from_definition_string(ex, st, env, node):
 b = contract("codebasin.finder:find@loop4", props=["C08", "C04", "C10", "C12"])
 b.param("p", P).param("e", ENTRY).param("rootdir", PATH).param("state", STATEOBJ)
 b.opaque = {"class:Platform": _new_platform,
-            "codebasin.preprocessor:macro_from_definition_string": _macro_from_definition_string}
+            "codebasin.preprocessor:macro_from_definition_string": _macro_from_definition_string,
+            "stub:logging.logger.warning": _h_warning}
 
 
 def _setup(ctx, st):
+    from pyvc.state import HeapObj
     F.install_axioms()
     T.init_symbolic(ctx, st)
     st.ghost["trace0"] = T.value(st)
+    st.ghost["wit_cell"] = st.alloc(HeapObj("cell", val=VSeq.of(INT, [])))
+
+
+def _wit(view_state):
+    return view_state.heap[view_state.ghost["wit_cell"].oid].val
 
 
 b.setup = _setup
@@ -139,6 +185,17 @@ def phase_facts(old, Tr, pl, e, upto_paths, upto_defs):
     ]
 
 
+def lookups_witnessed(Tr, e, start, end, done, wit):
+    """the k-th -include is looked up at trace position wit[k] (ghost list filled by the lookup handler)"""
+    inc = entry_lists(e)[2]
+    return [("every--include-is-looked-up (k-th include at the k-th recorded lookup position)",
+             z3.And(wit.n == done,
+                    z3.ForAll([k_], z3.Implies(z3.And(0 <= k_, k_ < done),
+                                               z3.And(start <= wit.arr[k_], wit.arr[k_] < end,
+                                                      f(ev(Tr, wit.arr[k_]), "kind") == FIND,
+                                                      f(ev(Tr, wit.arr[k_]), "path") == inc.arr[k_])))))]
+
+
 def include_region(Tr, pl, e, start, end, done):
     """events of the forced-include phase: lookups from the file's directory on this
     platform object, each hit followed by insert + associate with the same object"""
@@ -147,8 +204,17 @@ def include_region(Tr, pl, e, start, end, done):
     evj = ev(Tr, j_)
     inreg = z3.And(start <= j_, j_ < end)
     return [
-        ("forced-include-phase-contains-only-lookup/insert/associate",
-         z3.ForAll([j_], z3.Implies(inreg, z3.Or(f(evj, "kind") == FIND, f(evj, "kind") == INSERT, f(evj, "kind") == ASSOC)))),
+        ("forced-include-phase-contains-only-lookup/insert/associate/warning",
+         z3.ForAll([j_], z3.Implies(inreg, z3.Or(f(evj, "kind") == FIND, f(evj, "kind") == INSERT, f(evj, "kind") == ASSOC,
+                                                 f(evj, "kind") == WARN)))),
+        ("a-failed-lookup-is-followed-by-one-warning-that-names-the-include",
+         z3.ForAll([j_], z3.Implies(z3.And(inreg, f(evj, "kind") == FIND, OPATH.sort().is_none(f(evj, "res"))),
+                                    z3.And(j_ + 1 < end, f(ev(Tr, j_ + 1), "kind") == WARN,
+                                           f(ev(Tr, j_ + 1), "path") == f(evj, "path"))))),
+        ("a-warning-is-issued-only-right-after-a-lookup-that-found-nothing (recorded in the event when it is issued)",
+         z3.ForAll([j_], z3.Implies(z3.And(inreg, f(evj, "kind") == WARN), f(evj, "flag")))),
+        ("a-forced-include-is-parsed-in-a-given-language (not by its own extension)",
+         z3.ForAll([j_], z3.Implies(z3.And(inreg, f(evj, "kind") == INSERT), f(evj, "flag")))),
         ("lookups-use-this-platform-and-the-file's-directory",
          z3.ForAll([j_], z3.Implies(z3.And(inreg, f(evj, "kind") == FIND),
                                     z3.And(f(evj, "obj") == pl, f(evj, "path2") == d, z3.Not(f(evj, "flag")),
@@ -164,10 +230,6 @@ def include_region(Tr, pl, e, start, end, done):
         ("a-successful-lookup-is-followed-by-insert-and-associate",
          z3.ForAll([j_], z3.Implies(z3.And(inreg, f(evj, "kind") == FIND, z3.Not(OPATH.sort().is_none(f(evj, "res")))),
                                     z3.And(j_ + 2 < end, f(ev(Tr, j_ + 1), "kind") == INSERT, f(ev(Tr, j_ + 2), "kind") == ASSOC)))),
-        ("every--include-is-looked-up",
-         z3.ForAll([k_], z3.Implies(z3.And(0 <= k_, k_ < done),
-                                    z3.Exists([j_], z3.And(start <= j_, j_ < end, f(ev(Tr, j_), "kind") == FIND,
-                                                           f(ev(Tr, j_), "path") == inc.arr[k_]))))),
     ]
 
 
@@ -195,7 +257,8 @@ def _inv7(L):
     ip, df, inc, file = entry_lists(L.args.e)
     start = old.n + 1 + ip.n + df.n
     return ([("trace-length", L.trace.n >= start)] + phase_facts(old, L.trace, pl, L.args.e, ip.n, df.n)
-            + include_region(L.trace, pl, L.args.e, start, L.trace.n, L.i))
+            + include_region(L.trace, pl, L.args.e, start, L.trace.n, L.i)
+            + lookups_witnessed(L.trace, L.args.e, start, L.trace.n, L.i, _wit(L._st)))
 
 
 b.loop(5, LoopSpec(_inv5))
@@ -213,6 +276,7 @@ def _(A, R):
     name = R.st.ghost.get("new_plat_name")
     out = phase_facts(old, Tr, pl, A.e, ip.n, df.n)
     out += include_region(Tr, pl, A.e, start, Tr.n - 1, inc.n)
+    out += lookups_witnessed(Tr, A.e, start, Tr.n - 1, inc.n, _wit(R.st))
     out += [("the-file-itself-is-associated-last-with-the-same-platform-object",
              z3.And(Tr.n - 1 >= start, ev(Tr, Tr.n - 1) == T.mk(ASSOC, path=file, obj=pl))),
             ("the-platform-object-carries-the-platform's-name",
